@@ -1491,7 +1491,25 @@ func (x *SPE) instr(st *pathState, in ssa.Instruction) {
 		st.events = append(st.events, Event{Kind: EvIndex, Addr: a, Val: i, Pos: in.Pos(), Instr: in})
 		st.env[in] = &Expr{Op: OpIndexAddr, Args: []*Expr{a, i}, Type: in.Type(), Pos: in.Pos()}
 	case *ssa.Lookup:
-		st.env[in] = &Expr{Op: OpLookup, Args: []*Expr{x.val(st, in.X), x.val(st, in.Index)}, Type: in.Type()}
+		mv, kv := x.val(st, in.X), x.val(st, in.Index)
+		// m[k] with k the key a range over m delivered on this path, and m not
+		// written since: the value that iteration delivered
+		if !in.CommaOk && kv.Op == OpExtract && kv.ID == 1 && kv.Args[0].Op == OpNext && len(kv.Args[0].Args) > 0 && kv.Args[0].Args[0].Op == OpRange && len(kv.Args[0].Args[0].Args) > 0 && kv.Args[0].Args[0].Args[0].String() == mv.String() {
+			written := false
+			for _, ev := range st.events {
+				if ev.Kind == EvMapUpd && ev.Addr != nil && ev.Addr.String() == mv.String() {
+					written = true
+				}
+				if ev.Kind == EvCall && ev.Val != nil && ev.Val.Op == OpBuiltin && ev.Val.Name == "delete" && len(ev.Val.Args) > 0 && ev.Val.Args[0].String() == mv.String() {
+					written = true
+				}
+			}
+			if !written {
+				st.env[in] = &Expr{Op: OpExtract, Args: []*Expr{kv.Args[0]}, ID: 2, Type: in.Type()}
+				break
+			}
+		}
+		st.env[in] = &Expr{Op: OpLookup, Args: []*Expr{mv, kv}, Type: in.Type()}
 	case *ssa.Slice:
 		o := func(v ssa.Value) *Expr {
 			if v == nil {
